@@ -143,6 +143,22 @@ impl Oper {
         )
     }
 
+    pub(crate) fn is_ilike(&self) -> bool {
+        #[cfg(feature = "backend-postgres")]
+        {
+            use crate::extension::postgres::PgBinOper;
+            matches!(
+                self,
+                Oper::BinOper(BinOper::PgOperator(PgBinOper::ILike))
+                    | Oper::BinOper(BinOper::PgOperator(PgBinOper::NotILike))
+            )
+        }
+        #[cfg(not(feature = "backend-postgres"))]
+        {
+            false
+        }
+    }
+
     pub(crate) fn is_in(&self) -> bool {
         matches!(
             self,
